@@ -7,8 +7,11 @@
    followed by `release` in handle_spawn / handle_send / initialize_select, `awaiting.insert`,
    the `select_state.receiving` overwrite).
 
-   `fx : bool` selects the code after hooks/fix_F9.patch (true: the displaced value is released
-   before `awaiting[t]` / `receiving` is overwritten) or the code as found (false: finding F9).
+   `fx : bool` selects the code AS COMMITTED (true) or the code before the repairs (false):
+   fix_F9 (b6882e1): the displaced value is released before `awaiting[t]` / `receiving` is
+   overwritten; fix_F45 (09625d4): complete_select forgets the select's process sources and releases
+   any result stored for them, notify_result does not store a result for a key that is no longer
+   awaited, the worker's Err arm only fails an awaiter that still awaits.
 
    What comes from outside a handler is an input `hext` of the step: the heap effects and the
    result of a builtin call, the verdicts of IsType / Equal, the clock. Scheduling state (queue,
@@ -445,6 +448,27 @@ Fixpoint assoc_set {A} (k : nat) (a : A) (l : list (nat * A)) : list (nat * A) *
                    else let '(t', o) := assoc_set k a t in ((j, b) :: t', o)
   end.
 
+(* HashMap::remove: (new map, removed value) *)
+Fixpoint assoc_remove {A} (k : nat) (l : list (nat * A)) : list (nat * A) * option A :=
+  match l with
+  | [] => ([], None)
+  | (j, b) :: t => if k =? j then (t, Some b)
+                   else let '(t', o) := assoc_remove k t in ((j, b) :: t', o)
+  end.
+(* complete_select (09625d4): `process.awaiting.remove(target)` for every process source; the
+   stored results are released afterwards *)
+Fixpoint await_forget (srcs : list value) (a : list (nat * option value)) (stored : list value)
+  : list (nat * option value) * list value :=
+  match srcs with
+  | [] => (a, stored)
+  | VProc t _ :: r =>
+      let '(a', old) := assoc_remove t a in
+      await_forget r a' (match old with Some (Some v) => stored ++ [v] | _ => stored end)
+  | _ :: r => await_forget r a stored
+  end.
+Definition has_key (k : nat) (a : list (nat * option value)) : bool :=
+  match assoc_get k a with Some _ => true | None => false end.
+
 Definition cur_frame_idx (p : proc) : nat := length (p_frames p) - 1.
 Definition cur_instr (p : proc) : nat := match p_frames p with fr :: _ => fr_pc fr | [] => 0 end.
 
@@ -453,7 +477,13 @@ Definition complete_select (result : value) : M (option action) :=
   p <~ mget ;;
   mput (set_sel p None) ;;;
   match p_sel p with
-  | Some ss => mheap_ (fun h => release_vals h (ss_sources ss)) ;;;
+  | Some ss => (if fx then
+                  let '(a', stored) := await_forget (ss_sources ss) (p_await p) [] in
+                  p1 <~ mget ;;
+                  mput (set_await p1 a') ;;;
+                  mheap_ (fun h => release_vals h stored)
+                else mret tt) ;;;
+               mheap_ (fun h => release_vals h (ss_sources ss)) ;;;
                match ss_recv ss with Some (_, m) => m_release m | None => mret tt end
   | None => mret tt
   end ;;;
@@ -749,6 +779,9 @@ Fixpoint auto_pop (fuel : nat) (h : heap) (p : proc) : outcome (heap * proc) :=
 (* notify_result (753) *)
 Definition notify_result (x : exec) (awaiter awaited : nat) (v : value) (data : list (list Z))
   : outcome exec :=
+  if fx && negb (match get_proc x awaiter with Some p => has_key awaited (p_await p) | None => false end)
+  then Val x                          (* no longer awaited: nothing is stored (wake_selecting only) *)
+  else
   pr <- inject (x_heap x) v data ;;
   let '(h1, v1) := pr in
   match get_proc x awaiter with
@@ -783,9 +816,6 @@ Fixpoint notify_awaiters (x : exec) (pid : nat) (res : option value) (ws : list 
             end ;;
       notify_awaiters x1 pid res rest
   end.
-
-Definition has_key (k : nat) (a : list (nat * option value)) : bool :=
-  match assoc_get k a with Some _ => true | None => false end.
 
 (* Executor::step (1093) for the process `pid` (the front of the queue), `q` = instruction quantum *)
 Definition exec_step (x : exec) (pid : option nat) (q : nat) (xs : list hext) (dflt : hext)
@@ -914,9 +944,12 @@ Definition release_orphan_locals (x : exec) (pid : nat) (keep : list nat) : outc
       Val (put_proc (put_heap x h1) pid (set_locals p l'))
   end.
 
-(* worker.rs:564 notify_result, Err arm *)
-Definition fail_result (x : exec) (pid : nat) : exec :=
-  match get_proc x pid with Some p => put_proc x pid (fail_proc p) | None => x end.
+(* worker.rs:564 notify_result, Err arm: (09625d4) only an awaiter that still awaits is failed *)
+Definition fail_result (x : exec) (pid awaited : nat) : exec :=
+  match get_proc x pid with
+  | Some p => if fx && negb (has_key awaited (p_await p)) then x else put_proc x pid (fail_proc p)
+  | None => x
+  end.
 
 (* worker.rs:441 resume_process: the previous result moves onto the stack *)
 Definition resume_process (x : exec) (pid fn : nat) : exec :=
